@@ -20,6 +20,9 @@ CHECKS = {
  "C07": dict(level="exploration", technique="property-based testing (proptest): heading/list-biased generated documents, outline oracle over an independent scan with the quantifier's restructurings applied to the expected side",
    text="Generated search over documents biased to heading level sequences and nested mixed lists (including items that start with a heading or a list and empty items); oracle: block tree equality modulo the three allowed restructurings plus per-scope heading-level rule (well-nested reproduced, otherwise re-nested).",
    note="Trusted: pulldown-cmark for the input outline; restructuring rules implemented from the property's quantifier.", ref="7/C07"),
+ "C08": dict(level="exploration", technique="property-based testing (proptest): generated libraries and rename sites, WorkspaceEdit applied to an in-memory copy and judged by independent re-scan (link tables, content fingerprints)",
+   text="For generated libraries, every link occurrence to an existing note as rename site and free / taken / sub-directory names: the returned edit is applied to a copy and re-scanned; old key gone, new key present, every link resolves where it must with acceptable text, link counts and content fingerprints unchanged, unrelated notes untouched, taken names refused.",
+   note="Edit shapes understood: create, delete, full-range replace, insert at start.", ref="7/C08"),
  "C12": dict(level="exploration", technique="property-based testing (proptest): generated request/notification sequences against the in-memory LSP server, one-response-per-id oracle with event-based no-response detection and liveness probes",
    text="Sequences over all advertised methods and unknown ones with well-typed arbitrary parameters (unknown uris, huge positions, stale/missing code-action data, unknown commands); every request id must get exactly one response, probes must be answered, shutdown/exit must end the loop.",
    note="A request counts as unanswered when its worker thread is seen to panic (hook) and no response was sent; a 30 s backstop ends in inconclusive, not violation.", ref="7/C12"),
